@@ -1,1 +1,7 @@
 import AL.Props.C18
+#print axioms AL.C18.acyclic_none
+#print axioms AL.C18.cyclic_some
+#print axioms AL.C18.printed_is_cycle
+#print axioms AL.C18.fuel_irrelevant
+#print axioms AL.C18.undefined_exact
+#print axioms AL.C18.at_most_one
